@@ -3,7 +3,7 @@ import TaskModel.Finger.MachineLemmas
 and to the ghost log. -/
 namespace TaskModel.Finger
 
-variable (cfg : Cfg) (H : Bytes → Bytes) (pr : Proj)
+variable (cfg : Cfg) (H : Hashes) (pr : Proj)
 
 theorem lastAtt_append (pred : Attempt → Bool) (l : List Attempt) (a : Attempt) :
     lastAtt pred (l ++ [a]) = if pred a then some a else lastAtt pred l := by
